@@ -5,7 +5,7 @@ use std::collections::BTreeMap;
 
 use quinn_proto::{Dir, Event, ReadError, Side, StreamEvent, StreamId, VarInt, WriteError};
 
-use crate::sim::{content, content_byte, Sim};
+use crate::sim::{content_byte_s, content_s, Sim};
 use crate::Rng;
 
 pub fn sid(id: StreamId) -> u64 {
@@ -64,11 +64,17 @@ pub struct Workload {
     pub ch: [Option<usize>; 2],
     pub rng: Rng,
     pub events_seen: u64,
+    /// per-connection content salt (0 = the unsalted pattern) and the salts of the other connections of the run:
+    /// a byte that is another connection's content is reported as `isolation-data` (C09)
+    pub salt: u64,
+    pub other_salts: Vec<u64>,
+    /// simulator node of each side (default: side 0 lives on node 0, side 1 on node 1)
+    pub nodes: [usize; 2],
 }
 
 impl Workload {
     pub fn new(seed: u64) -> Self {
-        Self { sides: [AppSide::default(), AppSide::default()], ch: [None, None], rng: Rng::new(seed ^ 0x3017), events_seen: 0 }
+        Self { sides: [AppSide::default(), AppSide::default()], ch: [None, None], rng: Rng::new(seed ^ 0x3017), events_seen: 0, salt: 0, other_salts: Vec::new(), nodes: [0, 1] }
     }
 
     pub fn random_plans(rng: &mut Rng, n: usize, max_len: u64) -> Vec<Plan> {
@@ -113,16 +119,17 @@ impl Workload {
     pub fn tick(&mut self, sim: &mut Sim) {
         for node in 0..2 {
             let Some(ch) = self.ch[node] else { continue };
-            if !sim.nodes[node].conns.contains_key(&ch) {
+            let sn = self.nodes[node];
+            if !sim.nodes[sn].conns.contains_key(&ch) {
                 continue;
             }
             loop {
-                let ev = sim.nodes[node].conns.get_mut(&ch).unwrap().app_events.pop_front();
+                let ev = sim.nodes[sn].conns.get_mut(&ch).unwrap().app_events.pop_front();
                 let Some(ev) = ev else { break };
                 self.events_seen += 1;
                 match ev {
                     Event::Connected => {
-                        if self.sides[node].early && !sim.conn(node, ch).accepted_0rtt() {
+                        if self.sides[node].early && !sim.conn(sn, ch).accepted_0rtt() {
                             // the server rejected early data: the streams used so far no longer exist
                             self.restart_side(node);
                         }
@@ -150,21 +157,21 @@ impl Workload {
                     }
                     Event::Stream(StreamEvent::Opened { dir }) => {
                         loop {
-                            let id = sim.conn(node, ch).streams().accept(dir);
+                            let id = sim.conn(sn, ch).streams().accept(dir);
                             let Some(id) = id else { break };
                             let unordered = self.rng.below(1000) < self.sides[node].unordered_permille;
                             let max_len = *self.rng.pick(&[1usize, 13, 500, 4096, 100_000]);
                             self.sides[node].recv.insert(sid(id), RecvSt { unordered, max_len, ..Default::default() });
                             if dir == Dir::Bi {
                                 // we do not use the reverse direction: finish it at once
-                                let _ = sim.conn(node, ch).send_stream(id).finish();
+                                let _ = sim.conn(sn, ch).send_stream(id).finish();
                             }
                             self.read_more(sim, node, ch, id);
                         }
                     }
                     Event::Stream(StreamEvent::Readable { id }) => self.read_more(sim, node, ch, id),
                     Event::DatagramReceived => {
-                        while let Some(d) = sim.conn(node, ch).datagrams().recv() {
+                        while let Some(d) = sim.conn(sn, ch).datagrams().recv() {
                             self.sides[node].dgrams_recvd.push(d.to_vec());
                         }
                     }
@@ -177,7 +184,7 @@ impl Workload {
 
     fn send_dgrams(&mut self, sim: &mut Sim, node: usize, ch: usize) {
         while let Some(d) = self.sides[node].dgrams_to_send.pop() {
-            let r = sim.conn(node, ch).datagrams().send(d.clone().into(), false);
+            let r = sim.conn(self.nodes[node], ch).datagrams().send(d.clone().into(), false);
             match r {
                 Ok(()) => self.sides[node].dgrams_sent.push(d),
                 Err(quinn_proto::SendDatagramError::Blocked(_)) => {
@@ -193,7 +200,7 @@ impl Workload {
         while self.sides[node].next_plan < self.sides[node].plans.len() {
             let idx = self.sides[node].next_plan;
             let dir = self.sides[node].plans[idx].dir;
-            let id = sim.conn(node, ch).streams().open(dir);
+            let id = sim.conn(self.nodes[node], ch).streams().open(dir);
             let Some(id) = id else { break };
             self.sides[node].next_plan += 1;
             self.sides[node].send.insert(sid(id), SendSt { plan_idx: idx, ..Default::default() });
@@ -212,8 +219,8 @@ impl Workload {
         let limit = plan.reset_at.unwrap_or(plan.len).min(plan.len);
         while st.written < limit {
             let n = ((limit - st.written) as usize).min(plan.chunk);
-            let data = content(k, st.written, n);
-            match sim.conn(node, ch).send_stream(id).write(&data) {
+            let data = content_s(self.salt, k, st.written, n);
+            match sim.conn(self.nodes[node], ch).send_stream(id).write(&data) {
                 Ok(w) => {
                     if w == 0 || w > n {
                         sim.fail("write-returned-bad-count", format!("write of {n} returned {w}"));
@@ -233,10 +240,10 @@ impl Workload {
         }
         if st.written == limit && st.stopped.is_none() {
             if plan.reset_at.is_some() {
-                let _ = sim.conn(node, ch).send_stream(id).reset(VarInt::from_u32(77));
+                let _ = sim.conn(self.nodes[node], ch).send_stream(id).reset(VarInt::from_u32(77));
                 st.reset = true;
             } else if plan.finish {
-                if sim.conn(node, ch).send_stream(id).finish().is_ok() {
+                if sim.conn(self.nodes[node], ch).send_stream(id).finish().is_ok() {
                     st.finished = true;
                 }
             }
@@ -251,8 +258,9 @@ impl Workload {
             return;
         }
         let mut fails: Vec<(&'static str, String)> = Vec::new();
+        let (salt, other_salts) = (self.salt, self.other_salts.clone());
         {
-            let conn = sim.conn(node, ch);
+            let conn = sim.conn(self.nodes[node], ch);
             let mut rs = conn.recv_stream(id);
             let rd = rs.read(!st.unordered);
             match rd {
@@ -271,8 +279,16 @@ impl Workload {
                                     fails.push(("chunk-exceeds-max-length", format!("stream {k}: chunk of {} > max_length {}", c.bytes.len(), st.max_len)));
                                 }
                                 for (i, b) in c.bytes.iter().enumerate() {
-                                    if *b != content_byte(k, off + i as u64) {
-                                        fails.push(("stream-data-altered", format!("stream {k}: byte at offset {} is {} but {} was written", off + i as u64, b, content_byte(k, off + i as u64))));
+                                    if *b != content_byte_s(salt, k, off + i as u64) {
+                                        fails.push(("stream-data-altered", format!("stream {k}: byte at offset {} is {} but {} was written", off + i as u64, b, content_byte_s(salt, k, off + i as u64))));
+                                        // whose content is it? (up to 8 bytes compared)
+                                        let n = (c.bytes.len() - i).min(8);
+                                        for s2 in other_salts.iter().filter(|s2| **s2 != salt) {
+                                            if (0..n).all(|j| c.bytes[i + j] == content_byte_s(*s2, k, off + (i + j) as u64)) {
+                                                fails.push(("isolation-data", format!("stream {k} of the connection with content salt {salt}: {n} bytes from offset {} are the content of the connection with salt {s2}", off + i as u64)));
+                                                break;
+                                            }
+                                        }
                                         break;
                                     }
                                 }
